@@ -299,11 +299,24 @@ func checkSlotAccounting(p *Program, r *Result) {
 		}
 	}
 	inc, dec := 0, 0
+	// loadChunk / NextInto and the unexported helpers they are split into
+	inRegion := func(root string, fn *ssa.Function) bool {
+		rf := p.lookupFunc(pkgMcap, root)
+		if rf == nil {
+			return false
+		}
+		for _, g := range regionOf(p, rf, 3) {
+			if g == fn {
+				return true
+			}
+		}
+		return false
+	}
 	for _, s := range stores {
 		fname := funcName(s.fn)
 		pos := p.pos(s.in.Pos())
 		switch {
-		case s.kind == "inc" && fname == "mcap.indexedMessageIterator.loadChunk":
+		case s.kind == "inc" && inRegion("indexedMessageIterator.loadChunk", s.fn):
 			// paired with an append to it.messageIndexes: the append dominates the increment and every path from
 			// the append round the record loop passes the increment
 			paired := false
@@ -340,7 +353,7 @@ func checkSlotAccounting(p *Program, r *Result) {
 			} else {
 				r.violated("C20.b", fname, "unreadMessages++ with the index append", pos, "the increment is not in the block that appends the message index entry")
 			}
-		case s.kind == "dec" && fname == "mcap.indexedMessageIterator.NextInto":
+		case s.kind == "dec" && inRegion("indexedMessageIterator.NextInto", s.fn):
 			paired := false
 			for _, in := range s.in.Block().Instrs {
 				if fs, ok := in.(*ssa.Store); ok {
